@@ -4,6 +4,7 @@
 mod api;
 mod attack;
 mod gen;
+mod history;
 mod jt;
 mod keys;
 mod msg;
@@ -46,6 +47,7 @@ fn main() {
             &mut ctx,
             &attack::AttackOpts { n: num("n", 2) as usize, seed: num("seed", 1), family: get("family", "all"), stride: num("stride", 7) as usize, both_formats: get("both", "1") == "1" },
         ),
+        "history" => history::run(&mut ctx, &history::HistOpts { scn: get("scn", ""), limit: num("n", 1_000_000) as usize, random: num("random", 0) as usize, seed: num("seed", 1) }),
         "replay" => replay::run(&mut ctx, &replay::ReplayOpts { scn: get("scn", "scn.ndjson"), limit: num("n", 1_000_000) as usize, matrix: get("matrix", "1") == "1", seed: num("seed", 1) }),
         d => {
             eprintln!("unknown driver {d}");
